@@ -276,7 +276,31 @@ def check_sets(case):
     return OK(len(want_sets) == 8, f"set_orbit{len(want_sets)}")
 
 
-CHECKS = {"perm_ops_huge": check_perm_ops_huge, "perm_ops": check_perm_ops, "mesh_ops": check_mesh_ops, "equivariance": check_equivariance, "sets": check_sets}
+def check_equiv_light(case):
+    """One classical pattern and one host: the eight images answer `contains` alike, and like
+    the reference.  Cheap, so every pair of two lengths is swept (a containment shortcut that is
+    wrong on one pair in several thousand is rarely wrong on the images of that pair too)."""
+    pt, tt = tuple(case[0]), tuple(case[1])
+    P, T = Perm(pt), Perm(tt)
+    want = ref.contains(tt, pt)
+    for g, op in LIB_PERM_OPS.items():
+        got = op(T).contains(op(P))
+        if got != want:
+            return BAD("equiv_light_contains", {"g": g, "pattern": list(pt), "host": list(tt), "got": got, "want": want})
+    return OK(want, "light_contained" if want else "light_avoided", key=f"{pt}|{tt}")
+
+
+def shard_equiv_light(acc, shard, nshards, pairs_of_lengths):
+    i = 0
+    for a, b in pairs_of_lengths:
+        for pt in ref.perms(a):
+            for tt in ref.perms(b):
+                if i % nshards == shard:
+                    acc.record("equiv_light", check_equiv_light, [list(pt), list(tt)])
+                i += 1
+
+
+CHECKS = {"equiv_light": check_equiv_light, "perm_ops_huge": check_perm_ops_huge, "perm_ops": check_perm_ops, "mesh_ops": check_mesh_ops, "equivariance": check_equivariance, "sets": check_sets}
 
 
 def shard_perms(acc, shard, nshards, max_n):
@@ -321,6 +345,7 @@ FUZZ = {"equivariance": ("equivariance", equiv_cases), "sets": ("sets", set_case
 
 
 def run(acc, tier):
+    engine.pmap(acc, shard_equiv_light, extra=([(4, 6), (5, 6), (5, 7)] if tier == "quick" else [(4, 6), (5, 6), (5, 7), (4, 8), (6, 7), (5, 8)],))
     if tier == "quick":
         engine.pmap(acc, shard_perms, extra=(8,))
         engine.pmap(acc, shard_mesh_small, extra=(1,))
